@@ -318,15 +318,18 @@ def normalise_reference(hist, decls: dict[str, AccDecl]):
         if k == "setup":
             d = decls[e[1]]
             if d.rocc:
-                regs, known = e[3], e[4]
+                regs, linked = e[3], e[5]
+                written = {n for n, _ in e[2]}
                 names = []
                 for n, _ in e[2]:
                     if n[:-4] not in names:
                         names.append(n[:-4])
                 for nm in names:
-                    # an operand the compiler cannot know (never written since the accelerator was last
-                    # possibly reconfigured behind its back) is not judged: ANY
-                    pair = [norm_val(regs[nm + s_], 64) if (nm + s_) in known else ANY for s_ in (".rs1", ".rs2")]
+                    # an operand this setup does not write must be the value in effect when the setup is
+                    # linked to a previous state (the lowering has to retrace it); for a setup without an
+                    # input state the partner is unknown to the compiler (declared default 0) and is not
+                    # judged here - the values in effect at the next launch are (rlaunch)
+                    pair = [norm_val(regs[nm + s_], 64) if ((nm + s_) in written or linked) else ANY for s_ in (".rs1", ".rs2")]
                     out.append(("insn", d.fields[nm + ".rs1"], pair[0], pair[1]))
             else:
                 for n, v in e[2]:
